@@ -705,6 +705,7 @@ func init() {
 		},
 		shards: func(tier string) int { return 16 },
 		run: func(c *Ctx) {
+			c20WatcherEvents(c)
 			vrt.Enabled = true
 			env := &c20Env{}
 			_, _, htq := env.get("htpasswd")
@@ -754,6 +755,14 @@ func init() {
 			}
 		},
 		replay: func(c *Ctx, raw json.RawMessage) string {
+			var wc c20WatchCase
+			if json.Unmarshal(raw, &wc) == nil && wc.Kind == "watcher-events" {
+				key, msg := c20WatchRun(c, wc)
+				if key != "" {
+					c.Violate(key, msg, 1, wc)
+				}
+				return "events " + strings.Join(wc.Events, ",") + ": " + msg
+			}
 			var rp c20Replay
 			if err := json.Unmarshal(raw, &rp); err != nil {
 				return err.Error()
